@@ -27,6 +27,7 @@ inductive Op where
   | rsz (x n : Nat) | rszv (x n : Nat) (arg : Arg) | rsv (x n : Nat) | stf (x : Nat)
   | asn (x n : Nat) (v : Int) | asr (x : Nat) (k : ItKind) (vs : List Int)
   | asc (x y : Nat) | asm (x y : Nat) | swp (x y : Nat)
+  | appc (x y : Nat) | appm (x y : Nat)      -- x.append (y) / x.append (std::move (y)), any pair of inline capacities
   | app (x : Nat) (k : ItKind) (vs : List Int)
   | at (x i : Nat) | get (x i : Nat)
   deriving Repr
@@ -75,7 +76,7 @@ def Op.valid (s : Sys) : Op → Bool
   | .pop x => s.isAlive x && 0 < (s.w.hdr x).size
   | .clr x | .rsz x _ | .rsv x _ | .stf x | .asn x _ _ | .asr x _ _ | .app x _ _ | .at x _ => s.isAlive x
   | .get x i => s.isAlive x && i < (s.w.hdr x).size
-  | .asc x y | .asm x y => s.isAlive x && s.isAlive y && x ≠ y && true
+  | .asc x y | .asm x y | .appc x y | .appm x y => s.isAlive x && s.isAlive y && x ≠ y && true
   | .swp x y => s.isAlive x && s.isAlive y && x ≠ y && (x < 2) = (y < 2)
 
 def setAlive (s : Sys) (x : Nat) (b : Bool) : Sys := { s with alive := s.alive.set x b }
@@ -123,6 +124,13 @@ def opM (ac : ApiCfg) (s : Sys) : Op → M Int Out
   | .asc x y => copyAssign ac.cfg x y >>= fun _ => pure .none
   | .asm x y => moveAssign ac.cfg x y >>= fun _ => pure .none
   | .swp x y => swap ac.cfg x y >>= fun _ => pure .none
+  | .appc x y => appendRangeFwd ac.cfg x true (srcsCopy (s.w.hdr y).data 0 (s.w.hdr y).size) >>= fun _ => pure .none
+  | .appm x y =>
+      -- hpp:5826: move iterators only when relocation may move (so that a throw leaves the source intact), then other.clear ()
+      appendRangeFwd ac.cfg x true
+        (if Gen.relocateWithMove ac.cfg.policy then srcsMove (s.w.hdr y).data 0 (s.w.hdr y).size
+         else srcsCopy (s.w.hdr y).data 0 (s.w.hdr y).size) >>= fun _ =>
+      eraseAll ac.cfg y >>= fun _ => pure .none
   | .app x .fw vs => appendRangeFwd ac.cfg x true (extSrcs vs) >>= fun _ => pure .none
   | .app x .inp vs => appendRangeInput ac.cfg x true s.nextStream 0 vs >>= fun _ => pure .none
   | .at x i => getV x >>= fun v => if v.size ≤ i then throwE .range else readSlot v.data i >>= fun r => pure (.val r)
@@ -248,6 +256,8 @@ def parseOp (toks : List String) : Option Op :=
   | ["asc", x, y] => do pure (.asc (← cidx x) (← cidx y))
   | ["asm", x, y] => do pure (.asm (← cidx x) (← cidx y))
   | ["swp", x, y] => do pure (.swp (← cidx x) (← cidx y))
+  | ["appc", x, y] => do pure (.appc (← cidx x) (← cidx y))
+  | ["appm", x, y] => do pure (.appm (← cidx x) (← cidx y))
   | ["app", x, k, vs] => do pure (.app (← cidx x) (← parseIt k) (← parseVals vs))
   | ["at", x, i] => do pure (.at (← cidx x) (← i.toNat?))
   | ["get", x, i] => do pure (.get (← cidx x) (← i.toNat?))
